@@ -211,6 +211,14 @@ func (c13) Gen(rng *rand.Rand, tier string, k int) *Case {
 	if rng.Intn(5) == 0 {
 		c.Delay = 2 // number of consecutive runs on the same Backtest/report (field reused)
 	}
+	for i := range c.Assets {
+		if c.Assets[i].SrcN >= 2 && rng.Intn(8) == 0 {
+			c.Assets[i].SrcSwap = 1 + rng.Intn(c.Assets[i].SrcN-1)
+		}
+	}
+	if len(c.Assets) >= 2 && rng.Intn(6) == 0 {
+		c.Faults = append(c.Faults, FaultSpec{Kind: "getsince-fail", Name: c.Assets[rng.Intn(len(c.Assets))].Name})
+	}
 	if c.Impl == "html-reports" && len(c.Subs) >= 2 && rng.Intn(4) == 0 {
 		// fault-injecting configuration: one strategy report cannot be written (its path is taken by
 		// a directory), so HTMLReport.Write gives up part-way for that pair
@@ -326,6 +334,10 @@ func (c13) Run(c *Case, st *Stats) []Violation {
 					continue
 				}
 				all := genSnapshots(a.SrcN, int(a.Seed%int64(NumShapes)), a.Seed, today.AddDate(0, 0, a.SrcFrom-a.SrcN+1+lastDays/2))
+				if k := a.SrcSwap; k > 0 && k < len(all) {
+					all[k-1], all[k] = all[k], all[k-1] // stored out of date order (a late correction)
+					st.Faults["asset-stored-out-of-date-order"]++
+				}
 				if err := fill(repo, a.Name, all); err != nil {
 					add("setup-error", "-", err.Error())
 					return
@@ -342,6 +354,15 @@ func (c13) Run(c *Case, st *Stats) []Violation {
 			}
 			fr := newFaultRepo(repo)
 			fr.Order = c.Perm
+			for _, f := range c.Faults {
+				if f.Kind == "getsince-fail" {
+					// the repository fails for this asset with an error that is not "asset not found"
+					fr.FailGet[f.Name] = true
+					fr.On = true
+					present[f.Name] = false
+					st.Faults["repository-read-error"]++
+				}
+			}
 			for i, sp := range c.Subs {
 				// tagged wrapper: instances of zero-size strategy types are not distinguishable by address
 				strategies = append(strategies, &taggedStrategy{Strategy: makeBtStrategy(sp), idx: i})
